@@ -821,7 +821,7 @@ func c09Bytes(c *core.Ctx, sp *saml.ServiceProvider, idp *saml.IdentityProvider)
 		"dtd-entity":  []byte("<!DOCTYPE a [<!ENTITY x \"y\">]><a>&x;</a>"), "dtd-external": []byte("<!DOCTYPE a SYSTEM \"file:///etc/passwd\"><a/>"),
 		"billion-laughs": []byte("<!DOCTYPE l [<!ENTITY a \"aaaaaaaaaa\"><!ENTITY b \"&a;&a;&a;&a;&a;&a;&a;&a;\"><!ENTITY c \"&b;&b;&b;&b;&b;&b;&b;&b;\">]><l>&c;</l>"),
 		"colon-name":     []byte("<x::y/>"), "leading-colon": []byte("<:a/>"), "empty-prefix-decl": []byte("<a xmlns:=\"u\"/>"), "undeclared-prefix": []byte("<samlp:Response ID=\"x\"/>"),
-		"wrong-root":     []byte("<Assertion xmlns=\"urn:oasis:names:tc:SAML:2.0:assertion\"/>"), "root-only-response": []byte("<samlp:Response xmlns:samlp=\"urn:oasis:names:tc:SAML:2.0:protocol\"/>"),
+		"wrong-root": []byte("<Assertion xmlns=\"urn:oasis:names:tc:SAML:2.0:assertion\"/>"), "root-only-response": []byte("<samlp:Response xmlns:samlp=\"urn:oasis:names:tc:SAML:2.0:protocol\"/>"),
 		"soap-empty-body": []byte("<s:Envelope xmlns:s=\"http://schemas.xmlsoap.org/soap/envelope/\"><s:Body/></s:Envelope>"),
 		"soap-no-body":    []byte("<s:Envelope xmlns:s=\"http://schemas.xmlsoap.org/soap/envelope/\"/>"),
 		"soap-fault":      []byte("<s:Envelope xmlns:s=\"http://schemas.xmlsoap.org/soap/envelope/\"><s:Body><s:Fault><faultcode>s:Server</faultcode><faultstring>no</faultstring></s:Fault></s:Body></s:Envelope>"),
@@ -951,14 +951,24 @@ func c09Resolver(c *core.Ctx, sp *saml.ServiceProvider) {
 		}
 	})
 	simple := map[string]func(id string) (*http.Response, error){
-		"dial-error":       func(string) (*http.Response, error) { return nil, errors.New("dial tcp: connection refused") },
-		"timeout":          func(string) (*http.Response, error) { return nil, context.DeadlineExceeded },
-		"status-204":       func(id string) (*http.Response, error) { return mkResp(204, io.NopCloser(bytes.NewReader(nil)), 0), nil },
-		"status-302":       func(id string) (*http.Response, error) { return mkResp(302, io.NopCloser(bytes.NewReader(reply(id))), -1), nil },
-		"status-404":       func(id string) (*http.Response, error) { return mkResp(404, io.NopCloser(bytes.NewReader([]byte("nope"))), -1), nil },
-		"status-500-valid": func(id string) (*http.Response, error) { return mkResp(500, io.NopCloser(bytes.NewReader(reply(id))), -1), nil },
-		"empty-200":        func(id string) (*http.Response, error) { return mkResp(200, io.NopCloser(bytes.NewReader(nil)), 0), nil },
-		"html-200":         func(id string) (*http.Response, error) { return httpOK([]byte("<html><body>login</body></html>")) },
+		"dial-error": func(string) (*http.Response, error) { return nil, errors.New("dial tcp: connection refused") },
+		"timeout":    func(string) (*http.Response, error) { return nil, context.DeadlineExceeded },
+		"status-204": func(id string) (*http.Response, error) {
+			return mkResp(204, io.NopCloser(bytes.NewReader(nil)), 0), nil
+		},
+		"status-302": func(id string) (*http.Response, error) {
+			return mkResp(302, io.NopCloser(bytes.NewReader(reply(id))), -1), nil
+		},
+		"status-404": func(id string) (*http.Response, error) {
+			return mkResp(404, io.NopCloser(bytes.NewReader([]byte("nope"))), -1), nil
+		},
+		"status-500-valid": func(id string) (*http.Response, error) {
+			return mkResp(500, io.NopCloser(bytes.NewReader(reply(id))), -1), nil
+		},
+		"empty-200": func(id string) (*http.Response, error) {
+			return mkResp(200, io.NopCloser(bytes.NewReader(nil)), 0), nil
+		},
+		"html-200": func(id string) (*http.Response, error) { return httpOK([]byte("<html><body>login</body></html>")) },
 		"soap-fault": func(id string) (*http.Response, error) {
 			return httpOK([]byte("<s:Envelope xmlns:s=\"http://schemas.xmlsoap.org/soap/envelope/\"><s:Body><s:Fault><faultcode>s:Server</faultcode></s:Fault></s:Body></s:Envelope>"))
 		},
